@@ -463,6 +463,17 @@ Definition lines_exact (st : Z) (sz : N) (ls : list line) : bool :=
 Definition line_beq (a b : line) : bool :=
   Nat.eqb (fst (fst a)) (fst (fst b)) && (snd (fst a) =? snd (fst b))%Z && (snd a =? snd b).
 
+(* the lines of a site are read back file by file (directive by directive): the order in which
+   the middleware wrote to different files is not observable, so both sides are put in
+   directive order before they are compared (rules group directives by scope: with scopes
+   A, B, A the middleware writes 0, 2, 1) *)
+Fixpoint insert_line (l : line) (ls : list line) : list line :=
+  match ls with
+  | [] => [l]
+  | x :: r => if Nat.leb (fst (fst l)) (fst (fst x)) then l :: ls else x :: insert_line l r
+  end.
+Definition sort_lines (ls : list line) : list line := fold_right insert_line [] ls.
+
 (* rule-level spec (the middleware driven directly): every entry of every rule *)
 Fixpoint rule_counts_ok (cs : bool) (rs : list rule) (path : bytes) (ls : list line) : bool :=
   match rs with
@@ -522,7 +533,7 @@ Fixpoint judge1 (c : case) : bool * bool :=
   | CSite modelled haserr hdrw head ds path ops ret tbl ost osz ol tf e otails =>
       let wc := {| w_nethttp := true; w_head := head |} in
       let '(st, sz, ls) := site_serve wc false tbl haserr hdrw ds path ops ret in
-      let agree := (negb modelled || ((st =? ost)%Z && (sz =? osz) && list_beq line_beq ls ol)) &&
+      let agree := (negb modelled || ((st =? ost)%Z && (sz =? osz) && list_beq line_beq (sort_lines ls) (sort_lines ol))) &&
                    forallb (fun t => match expand_env e tf with Ok o => beq o t | Panic => false end) otails in
       let spec := counts_ok false ds 0 path ol && lines_exact ost osz ol &&
                   forallb (spec_expand_ok e tf) otails &&
